@@ -1,6 +1,9 @@
 package router
 
 import (
+	"context"
+
+	"github.com/IrineSistiana/mosproxy/internal/dnsmsg"
 	"github.com/IrineSistiana/mosproxy/internal/verifrt"
 )
 
@@ -157,4 +160,66 @@ func VerifH_C01_GnetLyingLength() {
 	}
 	verifrt.Reach("fed")
 	verifrt.Assert(len(c.writes) == 0, "nothing is written for bytes that contain no decodable query")
+}
+
+// vGatedUpstream keeps a query in flight until the harness opens the gate.
+type vGatedUpstream struct {
+	vKeyedUpstream
+	gate chan struct{}
+}
+
+func (u *vGatedUpstream) ExchangeContext(ctx context.Context, q []byte) (*dnsmsg.Msg, error) {
+	<-u.gate
+	return u.vKeyedUpstream.ExchangeContext(ctx, q)
+}
+
+// VerifH_C13_TCPIdleTimeoutMidFrame: the read deadline strikes while a frame is only partly received (after any
+// number of its octets, also inside the length prefix) and while an earlier query is still being handled; the
+// rest of the frame arrives afterwards. Whatever the listener does with the connection then, it never
+// re-synchronises inside a frame: the second frame's BODY is itself a complete length-prefixed query, which was
+// never sent as a frame and must never be answered. The first query is answered at most once.
+func VerifH_C13_TCPIdleTimeoutMidFrame() {
+	verifrt.Unwind(160)
+	verifrt.SchedBound(1)
+	verifrt.CtxNoExpiry = true
+	up := &vGatedUpstream{gate: make(chan struct{})}
+	r := vRouter([]*rule{{upstream: &upstreamWrapper{tag: "up", u: up}}}, false)
+	s := &tcpServer{r: r, maxConcurrent: int32(1 + verifrt.Choose("limit", 2)), idleTimeout: 1}
+	c := newVTCPConn()
+	id1 := verifrt.U16("id1")
+	frame1 := vFrame(vQueryMsg(id1, 'a', false, 0))
+	frame2 := vFrame(vFrame(vQueryMsg(0xBEEF, 's', false, 0))) // a frame whose body looks like a frame
+	done := make(chan struct{})
+	go func() { s.handleConn(c); close(done) }()
+	cut := verifrt.Concrete(verifrt.IntRange("cut", 0, len(frame2)))
+	c.inbox <- append(append([]byte(nil), frame1...), frame2[:cut]...)
+	verifrt.Quiesce() // query 1 is in flight (its upstream is gated), the read loop waits for the rest of frame 2
+	select {
+	case c.timeout <- struct{}{}: // the idle deadline strikes now
+	default:
+	}
+	verifrt.Quiesce()
+	if cut < len(frame2) {
+		c.inbox <- frame2[cut:]
+	}
+	verifrt.Quiesce()
+	close(up.gate)
+	verifrt.Quiesce()
+	c.Close()
+	<-done
+	verifrt.Reach("ended")
+	n1 := 0
+	for _, w := range c.writes {
+		verifrt.Assert(len(w) >= 2+12 && int(w[0])<<8|int(w[1]) == len(w)-2, "every write is one well-formed frame")
+		b := w[2:]
+		id := uint16(b[0])<<8 | uint16(b[1])
+		verifrt.Assert(id != 0xBEEF || id1 == 0xBEEF, "octets that were never sent as a frame are never answered (no re-synchronisation inside a frame)")
+		if len(b) > 13 {
+			verifrt.Assert(b[13] != 's', "octets that were never sent as a frame are never answered (no re-synchronisation inside a frame)")
+		}
+		if id == id1 {
+			n1++
+		}
+	}
+	verifrt.Assert(n1 <= 1, "the first query is answered at most once")
 }
